@@ -1,10 +1,11 @@
 import LolHtml.Lane.Echo
+import LolHtml.Lane.Edit
 
 namespace LolHtml.Lane
 
 /-- Registry of correspondence lanes: name ↦ one-line-in, one-line-out model runner. -/
 def registry : List (String × (String → String)) :=
-  [ ("echo", Echo.run) ]
+  [ ("echo", Echo.run), ("edit", Edit.run) ]
 
 def find (name : String) : Option (String → String) :=
   (registry.find? (·.1 == name)).map (·.2)
